@@ -55,7 +55,12 @@ Slices == << ESlice(ELit(IntV(1)), ENul("LENGTH")), ESlice(ELit(IntV(0)), ELit(I
 Nullary == << ENul("LENGTH"), ENul("KEYS"), ENul("REVERSE"), ENul("UNIQUE"), EFlatten(-1), EFlatten(1), ENul("ANY"), ENul("ALL"),
               ENul("TO_ENTRIES"), ENul("FROM_ENTRIES"), ENul("NOT"), ERecurse(TRUE),
               ENul("GET_TAG"), ENul("GET_KIND"), ENul("TO_STRING"), ENul("TO_NUMBER"), ENul("PIVOT"),
-              ENul("MIN"), ENul("MAX"), EUn("SORT_KEYS", ESelf), EUn("SORT_KEYS", ERecurse(FALSE)), EUn("ERROR", ELit(StrV(A))) >>
+              ENul("MIN"), ENul("MAX"), EUn("SORT_KEYS", ESelf), EUn("SORT_KEYS", ERecurse(FALSE)), EUn("ERROR", ELit(StrV(A))),
+              [op |-> "CHANGE_CASE", upper |-> TRUE], [op |-> "CHANGE_CASE", upper |-> FALSE], ENul("TRIM"),
+              EPipe(ELit(StrV(<<" ", "a", "B", " ">>)), ENul("TRIM")), EPipe(ELit(StrV(<<"a", "B", " ">>)), [op |-> "CHANGE_CASE", upper |-> TRUE]),
+              ENul("IS_KEY"), ENul("GET_DOCUMENT_INDEX"), ENul("GET_FILE_INDEX"), ENul("GET_ANCHOR"),
+              [op |-> "ENV", name |-> "va", str |-> FALSE], [op |-> "ENV", name |-> "vn", str |-> FALSE], [op |-> "ENV", name |-> "vu", str |-> FALSE],
+              [op |-> "ENV", name |-> "vt", str |-> TRUE], [op |-> "ENV", name |-> "vu", str |-> TRUE] >>
 PathSlices == << ETravArr(EPath(A), ECollect(EBin("CREATE_MAP", ELit(IntV(1)), ENul("LENGTH")))), ETravArr(EPath(A), ECollect(EBin("CREATE_MAP", ELit(IntV(0)), ELit(IntV(1))))),
                  ETravArr(EPath(A), ECollect(ELit(IntV(0)))), ETravArr(EPath(B), ECollect(EEmpty)) >>
 Leaf == Paths0 \o Lits \o Slices \o Nullary \o PathSlices
